@@ -121,6 +121,14 @@ var WorldAtoms = []WorldAtom{
 		ss[0].Extra = append(ss[0].Extra, "input In { a: Int b: [String] c: In }")
 		return ss
 	}, false},
+	{"root-input-lists", func(ss []*SvcSpec) []*SvcSpec {
+		// input objects inside lists inside input objects (variables can sit at any leaf)
+		ss[0].Query = append(ss[0].Query, "find(filter: Filter, ranges: [Range!]): String")
+		ss[0].Extra = append(ss[0].Extra, "input Range { min: Int max: Int }", "input Filter { years: [Range!] anyOf: [Filter!] title: String }")
+		ss[1].Types["N1"] = append(ss[1].Types["N1"], "pick(ranges: [Range!]): String")
+		ss[1].Extra = append(ss[1].Extra, "input Range { min: Int max: Int }")
+		return ss
+	}, false},
 	{"root-custom-scalar", func(ss []*SvcSpec) []*SvcSpec {
 		ss[1].Query = append(ss[1].Query, "when(at: DateTime): DateTime")
 		ss[1].Extra = append(ss[1].Extra, "scalar DateTime")
